@@ -82,7 +82,7 @@ def model_check(ctx):
     for fam in fams:
         jobs.append({"label": "MC_Hfsm/%s (reference semantics, all clauses)" % fam, "expect": "ok",
                      "cfg": "MC_%s.cfg" % fam,
-                     "workers": max(1, n // len(fams)), "coverage": True, "required_actions": ACTIONS,
+                     "workers": max(1, n // len(fams)),
                      "timeout": 900 if ctx.quick() else 3000})
     par_mc(ctx, jobs)
     # wrong variants: each must violate exactly its clause (only that clause is listed -> non-vacuity of that clause)
@@ -121,11 +121,11 @@ def gen_program(rnd):
     for m in range(1, nm + 1):
         M = ms[m - 1]
         ids = [s["id"] for s in M["ss"] if s["id"] != 0]
-        targets = ids + [0, 0] if m > 1 else ids + [0]
+        targets = ids * 2 + [0, 0] if m > 1 else ids * 4 + [0]
         for s in M["ss"]:
             if s["id"] == 0:
                 continue
-            for _ in range(rnd.choice([0, 1, 2, 2, 3, 3, 4])):
+            for _ in range(rnd.choice([0, 1, 1, 2, 2, 2, 3, 3, 4])):
                 r = {"ev": 0 if rnd.random() < 0.25 else rnd.randint(1, ne), "to": rnd.choice(targets), "g": 0, "a": 0}
                 if rnd.random() < 0.4:
                     gs.append([rnd.randint(0, 1) for _ in range(rnd.randint(1, 3))])
@@ -172,16 +172,21 @@ def gen_program(rnd):
 
 def gen_calls(rnd, ne, n):
     calls = [[1, 0]] if rnd.random() < 0.9 else []
+    stopped = not calls
     for _ in range(n):
         x = rnd.random()
-        if x < 0.76:
-            calls.append([4, rnd.randint(1, ne)])
+        if stopped and x < 0.7:
+            c = [1, 0] if x < 0.55 else [3, 0]
         elif x < 0.84:
-            calls.append([2, 0])
-        elif x < 0.92:
-            calls.append([1, 0])
+            c = [4, rnd.randint(1, ne)]
+        elif x < 0.89:
+            c = [2, 0]
+        elif x < 0.93:
+            c = [1, 0]
         else:
-            calls.append([3, 0])
+            c = [3, 0]
+        calls.append(c)
+        stopped = c[0] == 2 or (stopped and c[0] == 4)
     if rnd.random() < 0.9:
         calls.append([2, 0])          # "... by the time the machine is stopped"
     return calls
@@ -224,19 +229,22 @@ def run(ctx):
     #    each wrong variant violates its clause
     model_check(ctx)
     ctx.exhaustive = True
+    binding(ctx, exe)
+
+
+def binding(ctx, exe):
     rnd = random.Random(ctx.seed)
     # 2. spec -> code: TLC-enumerated programs and call sequences executed on the real class
     small = join_gen(ctx.tlc_gen(SPEC, "Gen_Hfsm.tla", "Gen_small.cfg", timeout=600))
     total = len(small)
-    if ctx.quick() and len(small) > 6000:
-        small = rnd.sample(small, 6000)
+    if ctx.quick() and len(small) > 4000:
+        small = rnd.sample(small, 4000)
     ctx.notes.append("Gen_small (family nestq, start + every 3 further calls): %d behaviours generated, %d executed" % (total, len(small)))
     ctx.sample({"kind": "TLC-enumerated program + call sequence executed on the real StateMachine", "calls": small[0]["calls"],
                 "program": small[0]["p"]})
     validate(ctx, exe, small, "gen_small", "TLC-enumerated programs/call sequences", replays=True)
-    sim = join_gen(ctx.tlc_gen(SPEC, "Gen_Hfsm.tla", "Gen_sim.cfg", simulate=(100000, 30), timeout=6 if ctx.quick() else 40,
-                               workers=2, limit=3000 if ctx.quick() else 20000))
-    sim = sim[:600 if ctx.quick() else 6000]
+    nsim = 60 if ctx.quick() else 800           # TLC emits about 10 x num walks
+    sim = join_gen(ctx.tlc_gen(SPEC, "Gen_Hfsm.tla", "Gen_sim.cfg", simulate=(nsim, 30), timeout=900, workers=2))
     validate(ctx, exe, sim, "gen_sim", "TLC-simulated long call sequences (family nest)", replays=True)
     # 3. code -> spec: seeded random programs, deeper and larger than the families
     nprog, ncalls = (700, 36) if ctx.quick() else (8000, 60)
